@@ -3,6 +3,7 @@ package bcl
 import (
 	"fmt"
 	"reflect"
+	"sort"
 	"strings"
 	"unicode"
 	"unicode/utf8"
@@ -135,8 +136,16 @@ func copyBlock(v reflect.Value, block Block) error {
 		return err
 	}
 fields:
-	for fkey, fval := range block.Fields {
-		err = setField(fkey, fval)
+	// Go over the fields in sorted key order, so that the outcome (which of
+	// two keys matching one struct field wins, which of several errors is
+	// reported) does not depend on the map iteration order.
+	fkeys := make([]string, 0, len(block.Fields))
+	for fkey := range block.Fields {
+		fkeys = append(fkeys, fkey)
+	}
+	sort.Strings(fkeys)
+	for _, fkey := range fkeys {
+		err = setField(fkey, block.Fields[fkey])
 		if err != nil {
 			return err
 		}
